@@ -13,6 +13,12 @@ use std::io::BufRead;
 
 use super::{Deserializable, DeserializationError};
 
+// CONSTANTS
+// ================================================================================================
+
+/// Maximum number of bytes pre-allocated by [ByteReader::read_many] before any element is read.
+const MAX_PREALLOC_BYTES: usize = 1 << 16;
+
 // BYTE READER TRAIT
 // ================================================================================================
 
@@ -191,7 +197,10 @@ pub trait ByteReader {
         Self: Sized,
         D: Deserializable,
     {
-        let mut result = Vec::with_capacity(num_elements);
+        // `num_elements` may come from untrusted input: cap the pre-allocation so that a bogus
+        // count results in an error once the input is exhausted rather than in a huge allocation
+        let max_prealloc = MAX_PREALLOC_BYTES / core::mem::size_of::<D>().max(1);
+        let mut result = Vec::with_capacity(num_elements.min(max_prealloc));
         for _ in 0..num_elements {
             let element = D::read_from(self)?;
             result.push(element)
